@@ -316,6 +316,24 @@ def r12c(ctx, run):
 
 # ---- (d) common type ---------------------------------------------------------------------------------------
 
+def tyname(v):
+    if isinstance(v, Variant):
+        p_ = v.payload or {}
+        w_ = p_.get("0")
+        if v.last in ("IInt", "UInt", "Float"):
+            return {"IInt": "i", "UInt": "u", "Float": "f"}[v.last] + str(w_) if w_ not in (0, 255) else {("IInt", 0): "{int}", ("UInt", 0): "{uint}", ("Float", 0): "{float}", ("IInt", 255): "isize", ("UInt", 255): "usize"}[(v.last, w_)]
+        if v.last == "Optional":
+            return "?" + tyname(p_["sub_ty"])
+        if v.last == "Distinct":
+            return "distinct " + tyname(p_["sub_ty"])
+        if v.last == "ErrorUnion":
+            return tyname(p_["error_ty"]) + "!" + tyname(p_["payload_ty"])
+        if v.last == "Some" and "0" in p_:
+            return tyname(p_["0"])
+        return v.last.lower()
+    return repr(v)
+
+
 def r12d(ctx, run):
     w = World(ctx)
     f = w.fns["max"]
@@ -343,6 +361,63 @@ def r12d(ctx, run):
                 continue
             run.check(fa and fb, f.site(), "max(%s, %s) = %r accepts both" % (an, bn, ab), "Ty::max", key, f.file, f.ln,
                       "max(%s, %s) = %r but %s is not implicitly accepted there: the common type of two operands must accept both" % (an, bn, ab, an if not fa else bn))
+    # one operand wrapped (`?a` against `b`, `distinct a` against `b`, `str!a` against `b`) on the scalar table: the common type, when there is one,
+    # accepts both operands, and the answer does not depend on the order
+    wrappers = (("?%s", lambda x: Variant("Ty::Optional", {"sub_ty": x})), ("distinct %s", lambda x: Variant("Ty::Distinct", {"uid": 77, "sub_ty": x})),
+                ("str!%s", lambda x: Variant("Ty::ErrorUnion", {"error_ty": Variant("Ty::String"), "payload_ty": x})))
+    n_wrapped = 0
+    for wn, wrap in wrappers:
+        for an in names:
+            for bn in names:
+                if wn.startswith("distinct") and an.startswith("{"):
+                    continue  # a distinct of a weak literal type cannot be declared
+                a, b = wrap(sc[an]), sc[bn]
+                key = "wrapped:%s,%s" % (wn % an, bn)
+                try:
+                    ab, ba = w.call("max", a, [b]), w.call("max", b, [a])
+                    if is_none(ab) != is_none(ba) or (not is_none(ab) and ab != ba):
+                        run.finding("Ty::max", key, f.file, f.ln, "max(%s, %s) = %r but max(%s, %s) = %r: the common type depends on the operand order" % (wn % an, bn, ab, bn, wn % an, ba))
+                        continue
+                    n_wrapped += 1
+                    if is_none(ab):
+                        continue
+                    fa, fb = w.call("can_fit_into", a, [ab]), w.call("can_fit_into", b, [ab])
+                except (Panic, CannotEstablish) as c:
+                    run.finding("Ty::max", key, f.file, f.ln, "cannot establish max(%s, %s) and whether it accepts its operands: %s" % (wn % an, bn, getattr(c, "what", c)))
+                    continue
+                if not (fa and fb):
+                    run.finding("Ty::max", key, f.file, f.ln, "max(%s, %s) = %s but %s is not implicitly accepted there: the common type of two operands must accept both (an if/else "
+                                "with these branch types is given a type that one branch's value cannot be converted to)" % (wn % an, bn, tyname(ab), (wn % an) if not fa else bn))
+    # both operands wrapped, on a smaller table
+    small = ("i32", "u8", "i64", "{int}", "{uint}", "f64", "bool")
+    for wn1, wrap1 in wrappers:
+        for wn2, wrap2 in wrappers:
+            for an in small:
+                for bn in small:
+                    if (wn1.startswith("distinct") and an.startswith("{")) or (wn2.startswith("distinct") and bn.startswith("{")):
+                        continue
+                    a, b = wrap1(sc[an]), wrap2(sc[bn])
+                    if wn2.startswith("distinct"):
+                        b = Variant("Ty::Distinct", {"uid": 78, "sub_ty": sc[bn]})
+                    key = "wrapped:%s,%s" % (wn1 % an, wn2 % bn)
+                    try:
+                        ab, ba = w.call("max", a, [b]), w.call("max", b, [a])
+                        if is_none(ab) != is_none(ba) or (not is_none(ab) and ab != ba):
+                            run.finding("Ty::max", key, f.file, f.ln, "max(%s, %s) = %s but in the other order %s: the common type depends on the operand order"
+                                        % (wn1 % an, wn2 % bn, tyname(ab), tyname(ba)))
+                            continue
+                        n_wrapped += 1
+                        if is_none(ab):
+                            continue
+                        fa, fb = w.call("can_fit_into", a, [ab]), w.call("can_fit_into", b, [ab])
+                    except (Panic, CannotEstablish) as c:
+                        run.finding("Ty::max", key, f.file, f.ln, "cannot establish max(%s, %s) and whether it accepts its operands: %s" % (wn1 % an, wn2 % bn, getattr(c, "what", c)))
+                        continue
+                    if not (fa and fb):
+                        run.finding("Ty::max", key, f.file, f.ln, "max(%s, %s) = %s but %s is not implicitly accepted there: the common type of two operands must accept both"
+                                    % (wn1 % an, wn2 % bn, tyname(ab), (wn1 % an) if not fa else (wn2 % bn)))
+    run.check(n_wrapped >= 3 * len(names) * len(names) - 40, f.site(), "one operand wrapped (?a / distinct a / str!a against b): %d pairs order-independent, accepted pairs accept both" % n_wrapped,
+              "Ty::max", "wrapped-evaluated", f.file, f.ln, "only %d of %d wrapped pairs could be evaluated" % (n_wrapped, 3 * len(names) * len(names)))
     # constructors with symbolic members, both orders (recursive answers symmetric by hypothesis)
     s, t, m = T("s"), T("t"), T("m")
     for desc, key, A, B in (
